@@ -511,3 +511,56 @@ def c09_m_message_roundtrip(ctx, v):
                 ok += 0 if bad else 1
     v.covers_total += 1
     v.covers_sat += 1 if ok >= 4 else 0
+
+
+def c09_m_tx_encoder_accepts_counts(ctx, v):
+    """Transaction::serialize_for_net_with_hop, the refusal exits in front of the encoding (it
+    answers an empty buffer, which the block encoder still counts as a transaction, so the
+    block cannot be read back): a transaction with at most 255 inputs and at most 255 outputs —
+    what add_to_slip / add_from_slip, Transaction::validate and the decoder accept — is never
+    refused.  Input and output counts symbolic (full 64-bit range); explored up to the first
+    element encoding."""
+    body = ctx.body(r"transaction::<impl at [^>]*>::serialize_for_net_with_hop$")
+    ex = ctx.executor(loop_bound=2, inline="auto", max_paths=2000, no_inline=[r"Slip::", r"Hop::", r"fmt", r"to_hex"])
+    ex.pure = [r".*"]
+    ex.stop_calls = [r"::iter$", r"IntoIterator>::into_iter$", r"Slip::serialize_for_net$"]
+    nin, nout = S.I(z3.BitVec("tx.from.len", 64)), S.I(z3.BitVec("tx.to.len", 64))
+    frm, to = S.Opaque("tx.from", "Vec<Slip>"), S.Opaque("tx.to", "Vec<Slip>")
+    frm.children["len"], to.children["len"] = nin, nout
+    npath = S.I(z3.BitVec("tx.path.len", 64))
+    pth = S.Opaque("tx.path", "Vec<Hop>")
+    pth.children["len"] = npath
+    tx = ctx.mk_struct(ex, "Transaction", "tx", **{"from": frm, "to": to, "path": pth})
+    hop = S.EnumV("Option<Hop>", None, S.I(z3.BitVec("opt_hop.discr", 64), True))
+    st = S.State()
+    st.pc.extend([L.enum_in_range(hop, 2), z3.ULE(npath.bv, 1 << 32)])   # a Vec<Hop> cannot hold 2^64 - 1 elements
+    outs = ex.run(body, [S.Ref(S.Cell(tx)), hop], st)
+    v.paths += len(outs)
+    small = z3.And(z3.ULE(nin.bv, 255), z3.ULE(nout.bv, 255))
+    accepted = refused = 0
+    for o in outs:
+        if o.kind in ("unsupported", "unwound", "path-limit"):
+            return v.undecided("%s %s" % (o.kind, o.info))
+        if o.kind == "panic":
+            L.report_panic(v, ex, o, "the encoder panics before encoding: %s" % o.info)
+            continue
+        if o.kind == "stopped":
+            v.queries += 1
+            if ex.feasible(o.pc, z3.And(nin.bv == 255, nout.bv == 255)):
+                accepted += 1
+            continue
+        if o.kind != "return":
+            continue
+        refused += 1
+        r, m = ex.model_for(o.pc, small)
+        v.queries += 1
+        if r == z3.sat:
+            v.sat += 1
+            wit = dict(inputs=m.eval(nin.bv, model_completion=True).as_long(), outputs=m.eval(nout.bv, model_completion=True).as_long(), path=L.trace_text(o, 8))
+            L.fail_structural(v, o, "the encoder refuses (answers no bytes for) a transaction with %d inputs and %d outputs although up to 255 of each are accepted everywhere else" % (wit["inputs"], wit["outputs"]), wit)
+        elif r == z3.unsat:
+            v.unsat += 1
+        else:
+            return v.undecided("solver %s" % r)
+    v.covers_total += 1
+    v.covers_sat += 1 if (accepted and refused) else 0
